@@ -47,7 +47,7 @@ Expressible(e) ==
        \/ e.mods = 0
        \/ (e.mods = Alt /\ e.name # "ESCAPE")
        \/ (e.mods = Shift /\ e.name = "TAB")                          \* CSI Z
-  ELSE IF e.name \in Keypad \cup KeypadOps \cup {"KP_ENTER"} THEN FALSE   \* the legacy encoding cannot tell a keypad digit from the digit key (and Vaxis decodes no SS3 j-y, M, X): the mode rule below is all that is demanded
+  ELSE IF e.name \in Keypad \cup KeypadOps \cup {"KP_ENTER"} THEN FALSE   \* in numeric mode the legacy encoding cannot tell a keypad digit from the digit key: the mode rule and KeypadArrives below are what is demanded
   ELSE IF e.name = "" THEN                                            \* a key with a code point
        \/ e.mods = 0
        \/ (e.mods = Shift /\ e.lower)                                 \* the upper-case letter
@@ -65,7 +65,25 @@ Expressible(e) ==
 (* Escape and Backspace keys themselves and are left out.                                          *)
 CtrlClasses == {{32, 50, 64}, {52, 92}, {53, 93}, {54, 94}, {55, 47, 95}}     \* NUL, FS, GS, RS, US
 CtrlClassOf(c) == IF \E K \in CtrlClasses : c \in K THEN CHOOSE K \in CtrlClasses : c \in K ELSE {}
-SharedCtrl(e) == e.name = "" /\ e.mods = Ctrl /\ CtrlClassOf(e.code) # {}
+(* Ctrl applies to the character the chord produces (X11 XLookupString, on which xterm's legacy     *)
+(* encoding rests): where NUL, RS and US have a key of their own it is the SHIFTED one of a US       *)
+(* layout - Ctrl+@ is typed Ctrl+Shift+2, Ctrl+^ Ctrl+Shift+6, Ctrl+_ Ctrl+Shift+- - and a host       *)
+(* reports such a chord as the unshifted key, its shifted code and Ctrl+Shift.  It is Ctrl + the      *)
+(* shifted character, which the legacy encoding expresses (these are the chords the control codes     *)
+(* are named after: ^@ ^^ ^_), so it must arrive as Ctrl + some key of that character's class.        *)
+CtrlChar(e) == IF e.mods = Ctrl THEN e.code ELSE IF e.mods = Ctrl + Shift /\ e.shifted \in {64, 94, 95} THEN e.shifted ELSE 0
+SharedCtrl(e) == e.name = "" /\ CtrlClassOf(CtrlChar(e)) # {}
+
+(* Ctrl with a key beyond ASCII: the control codes belong to ASCII characters (ECMA-48 / X11: Ctrl    *)
+(* changes @ A-Z [ \ ] ^ _ and a few more ASCII keys), such a key has none, xterm sends the character *)
+(* itself and the chord is not expressible: its modifiers may be lost.  The KEY may not be replaced:  *)
+(* what is written must not be a control code (a single C0 or DEL byte, a C1 control in UTF-8,        *)
+(* possibly after Alt's ESC) - those are other keys (DEL is Backspace) or terminal controls - and,    *)
+(* when it decodes to one key event, that event must be the same key with some of the modifiers.      *)
+NoControlCode(e) == e.name = "" /\ e.code > 127 /\ e.mods \in {Ctrl, Ctrl + Shift, Ctrl + Alt, Ctrl + Alt + Shift}
+ControlBytes(b) == LET t == IF Len(b) >= 2 /\ b[1] = 27 THEN Tail(b) ELSE b IN
+                   \/ (Len(t) = 1 /\ (t[1] < 32 \/ t[1] = 127))
+                   \/ (Len(t) = 2 /\ t[1] = 194 /\ t[2] \in 128..159)
 
 CursorFinal(n) == CASE n = "UP" -> 65 [] n = "DOWN" -> 66 [] n = "RIGHT" -> 67 [] n = "LEFT" -> 68 [] n = "HOME" -> 72 [] n = "END" -> 70
 KeypadFinal(n) == CASE n = "KP_0" -> 112 [] n = "KP_1" -> 113 [] n = "KP_2" -> 114 [] n = "KP_3" -> 115 [] n = "KP_4" -> 116
@@ -81,6 +99,11 @@ KeypadChar(n) == CASE n \in Keypad -> KeypadFinal(n) - 112 + 48
 (* character even in application keypad mode ("num_lock, force keypad_mode off"), a VT100 sends    *)
 (* SS3 j-y: both are accepted under DECKPAM, only the character under DECKPNM.  Keypad Enter is CR  *)
 (* in numeric mode and SS3 M (or, under xterm's Num Lock rule, CR) in application mode.             *)
+(* The same keys WITHOUT text are what a host without the kitty protocol delivers (Vaxis puts the  *)
+(* host into application keypad mode, the terminal sends SS3 p-y / j-o / X, which name the key and  *)
+(* carry no text): the same table applies - the character in numeric mode (VT100: "the numeric      *)
+(* keypad keys send the same characters as the main keyboard"), the SS3 code (or the character) in  *)
+(* application mode.  Nothing written is not in the table for either.                               *)
 ModeBytes(e) ==
   IF e.name \in Cursor /\ e.mods = 0 THEN
      (IF e.decckm THEN {<<27, 79, CursorFinal(e.name)>>} ELSE {<<27, 91, CursorFinal(e.name)>>})
@@ -88,11 +111,21 @@ ModeBytes(e) ==
      (IF e.deckpam THEN {<<27, 79, KeypadFinal(e.name)>>, <<KeypadChar(e.name)>>} ELSE {<<KeypadChar(e.name)>>})
   ELSE {}
 
+(* A keypad digit, operator or Enter written in a form its mode allows must also ARRIVE: parsed by *)
+(* Vaxis's pipeline, the SS3 code is one key event naming that keypad key; the character is one key *)
+(* event carrying that character as its text (Enter: the Enter key).                                *)
+KeypadArrives(e) ==
+  IF e.n # 1 THEN "not-one-key-event"
+  ELSE IF Len(e.bytes) = 3 THEN (IF e.gotname = e.name THEN "ok" ELSE "keypad-code-not-decoded-as-its-key")
+  ELSE IF e.name = "KP_ENTER" THEN (IF e.gotname = "ENTER" THEN "ok" ELSE "keypad-character-not-decoded")
+  ELSE IF e.gottext = e.bytes THEN "ok" ELSE "keypad-character-not-decoded"
+
 KeyWhy(e) ==
   \* the legacy encoding has no report for the release of a key: bytes written for one reach the child as a key press that never happened
   IF e.etype = "release" THEN (IF e.bytes = <<>> THEN "ok" ELSE "key-release-written")
   ELSE IF ModeBytes(e) # {} /\ e.bytes = <<>> THEN "nothing-written"
   ELSE IF ModeBytes(e) # {} /\ e.bytes \notin ModeBytes(e) THEN "mode-selected-encoding"
+  ELSE IF e.name \in Keypad \cup KeypadOps \cup {"KP_ENTER"} /\ e.mods = 0 THEN KeypadArrives(e)
   ELSE IF e.name \in KeypadNav THEN                \* arrives as the cursor / editing key of the same name (either form of it)
        (IF e.bytes = <<>> THEN "nothing-written"
         ELSE IF e.n # 1 THEN "not-one-key-event"
@@ -106,8 +139,12 @@ KeyWhy(e) ==
   ELSE IF SharedCtrl(e) THEN
        (IF e.bytes = <<>> THEN "nothing-written"
         ELSE IF e.n # 1 THEN "not-one-key-event"
-        ELSE IF \E c \in CtrlClassOf(e.code) : \E k \in 1..Len(e.ctrlm) : e.ctrlm[k] = c THEN "ok"
+        ELSE IF \E c \in CtrlClassOf(CtrlChar(e)) : \E k \in 1..Len(e.ctrlm) : e.ctrlm[k] = c THEN "ok"
         ELSE "decoded-key-not-in-shared-control-class")
+  ELSE IF NoControlCode(e) THEN
+       (IF ControlBytes(e.bytes) THEN "control-code-written-for-key-without-one"
+        ELSE IF e.n = 1 /\ ~e.samekey THEN "arrives-as-another-key"
+        ELSE "ok")
   ELSE IF ~Expressible(e) THEN "ok"
   ELSE IF e.bytes = <<>> THEN "nothing-written"
   \* ESC + 2/0-2/15 and ESC + a character beyond ASCII are the right legacy encodings of Alt + that key; Vaxis's decoder
